@@ -12,6 +12,7 @@ import (
 	"github.com/attestantio/go-eth2-client/spec/phase0"
 	"github.com/attestantio/vouch/internal/vnd"
 	"github.com/attestantio/vouch/internal/vstub"
+	"github.com/rs/zerolog"
 )
 
 const (
@@ -29,9 +30,14 @@ type c07Provider struct {
 	calls   int
 }
 
-func (p *c07Provider) AttestationData(_ context.Context, _ *api.AttestationDataOpts) (*api.Response[*phase0.AttestationData], error) {
+func (p *c07Provider) AttestationData(ctx context.Context, _ *api.AttestationDataOpts) (*api.Response[*phase0.AttestationData], error) {
 	p.calls++
-	vnd.Sleep(p.latency)
+	// like a real HTTP client the node stub gives up when the context it was called with ends
+	select {
+	case <-ctx.Done():
+		return nil, ctx.Err()
+	case <-time.After(p.latency):
+	}
 	if p.outcome == mError {
 		return nil, errors.New("mock provider error")
 	}
@@ -45,6 +51,15 @@ func (c *c07Cache) BlockRootToSlot(_ context.Context, root phase0.Root) (phase0.
 }
 
 const c07Slot = phase0.Slot(32*10 + 5)
+
+// c07New builds the strategy the way main does: through New.
+func c07New(timeout time.Duration, ct *vstub.ChainTime, cache *c07Cache, threshold int, providers map[string]eth2client.AttestationDataProvider) *Service {
+	s, err := New(context.Background(), WithLogLevel(zerolog.Disabled), WithClientMonitor(vstub.ClientMonitor{}),
+		WithTimeout(timeout), WithProcessConcurrency(int64(len(providers))), WithAttestationDataProviders(providers),
+		WithChainTime(ct), WithBlockRootToSlotCache(cache), WithThreshold(threshold))
+	vnd.Assert(err == nil && s != nil, "C07.new.accepted")
+	return s
+}
 
 // VerifC07_Majority: the majority strategy returns the most frequently reported
 // value whenever at least `threshold` nodes reported it within the timeout and
@@ -66,8 +81,7 @@ func c07Majority(n int, outcomes int) {
 	timeout := time.Duration(vnd.I64("timeout"))
 	vnd.Assume(timeout >= 2 && timeout <= 60000) // virtual nanoseconds: only the order of instants matters
 	threshold := vnd.IntRange("threshold", 1, n)
-	s := &Service{clientMonitor: vstub.ClientMonitor{}, timeout: timeout, chainTime: ct, blockRootToSlotCache: &c07Cache{}, threshold: threshold,
-		attestationDataProviders: map[string]eth2client.AttestationDataProvider{}}
+	providers := map[string]eth2client.AttestationDataProvider{}
 	provs := make([]*c07Provider, n)
 	for i := 0; i < n; i++ {
 		p := &c07Provider{name: []string{"node-a", "node-b", "node-c"}[i]}
@@ -82,8 +96,9 @@ func c07Majority(n int, outcomes int) {
 			p.data.Target.Epoch = 9
 		}
 		provs[i] = p
-		s.attestationDataProviders[p.name] = p
+		providers[p.name] = p
 	}
+	s := c07New(timeout, ct, &c07Cache{}, threshold, providers)
 	start := vnd.NowNs()
 	resp, err := s.AttestationData(context.Background(), &api.AttestationDataOpts{Slot: c07Slot})
 	elapsed := time.Duration(vnd.NowNs() - start)
